@@ -250,7 +250,7 @@ def gen_connect_fault_case(rng: random.Random) -> dict:
 class C09(CheckBase):
     pid = "C09"
     level = "fault_enumeration"
-    quick_cases = 96
+    quick_cases = 144
     thorough_cases = 1440
 
     def cases(self, rng: random.Random, tier: str, idx: int) -> Iterable[dict]:
